@@ -279,7 +279,7 @@ fn parse_v_model_directive(
     };
 
     let mut modifiers = None;
-    let value;
+    let mut value;
 
     if let Expr::Array(ArrayLit { elems, .. }) = attr_value {
         value = match elems.first() {
@@ -332,6 +332,8 @@ fn parse_v_model_directive(
                 "The expression bound by `v-model` must be assignable (an identifier or a member expression).",
             );
         });
+        // (an assignment to it can't be built: later passes would panic on such a tree)
+        value = Expr::Ident(quote_ident!("").into());
     }
 
     Directive::VModel(VModelDirective {
